@@ -238,3 +238,6 @@ extend("C03", "The public queries valid / span / mult are proved on a scalar and
 extend("C09", "Engine V also proves the Bezier derivative matrix in closed form for EVERY degree (row i: -p/L at column i, p/L at column i+1).")
 extend("C10", "Engine V also proves Math.factorial(n) == n! (loop invariant over the ghost recursion, nonlinear) and Math.comb(u, l) == u! // (l! (u-l)!) in exact integer "
               "arithmetic for every argument - the integers the Newton-Cotes weights are built from.")
+extend("C13", "Engine V proves the norm under the tolerance test for all inputs: abs of a number, and for a sequence of ANY length an upper bound of every |x_k| that is attained "
+              "(the infinity norm); the verdict logic around it is decided per operand pair by engine S.")
+ENGINE_V += ["C13", "C09", "C10"]
